@@ -27,7 +27,7 @@ PROBES = ["load_checked", "fresh_process_load", "file_checked", "rekeep_switched
 
 PROFILE = {
     "feat": gen.swarm_feat,
-    "edits": ["var", "ver", "lit", "default", "path", "comment", "move"],
+    "edits": ["var", "ver", "lit", "rtx", "default", "path", "comment", "move"],
     "n": (4, 12),
     "locations": ["package", "package", "package", "main", "notebook"],
     "p_restart": 0.7,
